@@ -149,7 +149,7 @@ func Harness_C15_go_c_refs() {
 }
 
 // c15GoRefs is the Go reader's side of shim_scan mode 0.
-func c15GoRefs(rd *Reader, name string, hs int) []byte {
+func c15GoRefs(rd Table, name string, hs int) []byte {
 	out := c15Head(nil, rd.MinUpdateIndex(), rd.MaxUpdateIndex())
 	it, err := rd.SeekRef(name)
 	VerifAssert(err == nil, "go-seekref-err")
@@ -172,7 +172,7 @@ func c15GoRefs(rd *Reader, name string, hs int) []byte {
 }
 
 // c15GoLogs is the Go reader's side of shim_scan mode 1.
-func c15GoLogs(rd *Reader, name string, idx uint64, hs int) []byte {
+func c15GoLogs(rd Table, name string, idx uint64, hs int) []byte {
 	out := c15Head(nil, rd.MinUpdateIndex(), rd.MaxUpdateIndex())
 	it, err := rd.SeekLog(name, idx)
 	VerifAssert(err == nil, "go-seeklog-err")
@@ -195,7 +195,7 @@ func c15GoLogs(rd *Reader, name string, idx uint64, hs int) []byte {
 }
 
 // c15GoRefsFor is the Go reader's side of shim_scan mode 2.
-func c15GoRefsFor(rd *Reader, oid []byte, hs int) []byte {
+func c15GoRefsFor(rd Table, oid []byte, hs int) []byte {
 	out := c15Head(nil, rd.MinUpdateIndex(), rd.MaxUpdateIndex())
 	it, err := rd.RefsFor(oid)
 	VerifAssert(err == nil, "go-refsfor-err")
@@ -625,5 +625,241 @@ func Harness_C15_shapes_refsfor() {
 	goDump := c15GoRefsFor(rd, oid, hs)
 	VerifAssert(goDump == nil || bytesEq(goDump, exp), "refsfor-differs-from-input")
 	c15Same(data, 2, oid, 0, goDump, "readers-differ-on-refsfor")
+	VerifCover("done")
+}
+
+// ---------- stack directories ----------
+
+// c15StackSame: the C stack's merged view of the directory (mode 0 refs from
+// key, mode 1 logs from (key, idx)) equals the Go dump.
+func c15StackSame(dir string, cfg Config, mode int, key string, idx uint64, goDump []byte, label string) {
+	if goDump == nil {
+		return
+	}
+	var got []byte
+	var n int
+	VerifAs(3)
+	VerifQuiet(func() { got, n = VerifC_stack_scan(dir, c15Flags(cfg), mode, []byte(key), idx, len(goDump)+64) })
+	VerifAs(0)
+	VerifAssert(n == len(goDump), label+"-length")
+	VerifAssert(n == len(goDump) && bytesEq(got, goDump), label)
+}
+
+// c15StackViews: both stacks open the directory and agree on refs (from key) and logs.
+func c15StackViews(dir string, cfg Config, key string) *Stack {
+	hs := c15HashSize(cfg)
+	var st *Stack
+	var refs, logs []byte
+	VerifQuiet(func() {
+		var err error
+		st, err = NewStack(dir, cfg)
+		VerifAssert(err == nil, "go-opens-directory")
+		if err != nil {
+			st = nil
+			return
+		}
+		m := st.Merged()
+		refs = c15GoRefs(m, key, hs)
+		logs = c15GoLogs(m, "", ^uint64(0), hs)
+	})
+	if st == nil {
+		return nil
+	}
+	c15StackSame(dir, cfg, 0, key, 0, refs, "stacks-differ-on-refs")
+	c15StackSame(dir, cfg, 1, "", ^uint64(0), logs, "stacks-differ-on-logs")
+	return st
+}
+
+// c15Txn is the canonical record stream of one transaction: private ref p<k>
+// (or its deletion), shared ref s, and a reflog entry for s; the C side puts
+// every record at the stack's next update index.
+func c15Txn(k byte, payload byte, del bool, hs int) []byte {
+	var d []byte
+	p := &RefRecord{RefName: "p" + string([]byte{'0' + k})}
+	if !del {
+		p.Value = hashWith(hs, k, 1)
+		p.Value[3] = payload
+	}
+	d = c15Ref(d, p, hs)
+	d = c15Ref(d, &RefRecord{RefName: "s", Value: hashWith(hs, k, 2)}, hs)
+	d = c15Log(d, &LogRecord{RefName: "s", Time: uint64(k), New: hashWith(hs, k, 2), Old: hashWith(hs, 0, 0), Name: "n", Email: "e", Message: "m\n"}, hs)
+	return d
+}
+
+// c15COp runs one C stack operation as process 2.
+func c15COp(dir string, cfg Config, op int, desc []byte) int {
+	r := 0
+	VerifAs(2)
+	VerifQuiet(func() { r = VerifC_stack_op(dir, c15Flags(cfg), cfg.BlockSize, op, desc) })
+	VerifAs(0)
+	return r
+}
+
+// Harness_C15_stack_go_c: a stack directory written by the Go stack (transactions, a deletion, full or partial compaction) is opened by the C stack, whose merged view shows the same refs and reflog entries.
+// bounds: 1..3 Go transactions (private ref with a symbolic payload byte, shared ref, reflog entry), optionally a deletion of the first private ref, then no compaction / CompactAll / compactRange(0,1); BlockSize 256, sha1 or sha256; ref scan from a symbolic key of 0..1 bytes, full log scan
+// assumes: sequential (the two implementations take turns; concurrent Go and C processes on one directory are not explored)
+// covers: done
+func Harness_C15_stack_go_c() {
+	cfg := stackCfg(VerifChoose(2))
+	dir := VerifTempDir()
+	n := VerifIntRange(1, 3)
+	payload := VerifU8()
+	VerifAs(1)
+	st := mustOpen(dir, cfg, "open")
+	if st == nil {
+		return
+	}
+	for i := 0; i < n; i++ {
+		VerifAssert(addTxnVal(st, byte(i), payload, true) == nil, "go-add")
+	}
+	if VerifChoose(2) == 1 {
+		VerifAssert(st.Add(func(w *Writer) error {
+			ui := st.NextUpdateIndex()
+			w.SetLimits(ui, ui)
+			return w.AddRef(&RefRecord{RefName: "p0", UpdateIndex: ui})
+		}) == nil, "go-delete")
+	}
+	switch VerifChoose(3) {
+	case 1:
+		VerifAssert(st.CompactAll(nil) == nil, "go-compactall")
+	case 2:
+		if len(st.stack) >= 2 {
+			_, err := st.compactRange(0, 1, nil)
+			VerifAssert(err == nil, "go-compactrange")
+		}
+	}
+	st.Close()
+	VerifAs(0)
+	key := symString(VerifIntRange(0, 1))
+	c15NulFree(key)
+	c15StackViews(dir, cfg, key)
+	VerifCover("done")
+}
+
+// Harness_C15_stack_c_go: a stack directory written by the C stack (transactions, a deletion, automatic or full compaction) is opened by the Go stack, whose merged view shows the same refs and reflog entries, and they are the ones the transactions say.
+// bounds: 1..3 C transactions as in Harness_C15_stack_go_c, optionally a deletion, each with or without the automatic compaction of reftable_stack_add, then optionally reftable_stack_compact_all; BlockSize 256, sha1 or sha256
+// assumes: sequential, as above
+// covers: done
+func Harness_C15_stack_c_go() {
+	cfg := stackCfg(VerifChoose(2))
+	hs := c15HashSize(cfg)
+	dir := VerifTempDir()
+	n := VerifIntRange(1, 3)
+	payload := VerifU8()
+	auto := VerifChoose(2)
+	// the directory exists but is empty: the C stack creates tables.list
+	for i := 0; i < n; i++ {
+		VerifAssert(c15COp(dir, cfg, auto, c15Txn(byte(i), payload, false, hs)) == 0, "c-add")
+	}
+	del := VerifChoose(2) == 1
+	if del {
+		VerifAssert(c15COp(dir, cfg, auto, c15Txn(0, 0, true, hs)) == 0, "c-delete")
+	}
+	if VerifChoose(2) == 1 {
+		VerifAssert(c15COp(dir, cfg, 2, nil) == 0, "c-compactall")
+	}
+	key := symString(VerifIntRange(0, 1))
+	c15NulFree(key)
+	st := c15StackViews(dir, cfg, "")
+	if st == nil {
+		return
+	}
+	VerifQuiet(func() {
+		got := snapshot(st, "go-view-of-c-stack")
+		for i := 0; i < n; i++ {
+			v, ok := got.refs["p"+string([]byte{'0' + byte(i)})]
+			if i == 0 && del {
+				VerifAssert(!ok, "deleted-ref-visible")
+			} else {
+				VerifAssert(ok && v == byte(i), "c-written-ref-missing")
+			}
+		}
+		last := byte(n - 1)
+		if del {
+			last = 0
+		}
+		VerifAssert(got.refs["s"] == last, "c-written-shared-ref")
+		want := n
+		if del {
+			want++
+		}
+		VerifAssert(got.logs == want, "c-written-log-count")
+	})
+	c15StackSame(dir, cfg, 0, key, 0, c15GoRefsQuiet(st, key, hs), "stacks-differ-on-seekref")
+	VerifCover("done")
+}
+
+func c15GoRefsQuiet(st *Stack, key string, hs int) []byte {
+	var d []byte
+	VerifQuiet(func() { d = c15GoRefs(st.Merged(), key, hs) })
+	return d
+}
+
+// Harness_C15_stack_mixed: the two implementations take turns on one directory: each sees the other's transactions and compactions.
+// bounds: 4 steps, each one of {Go Add, C add, Go CompactAll, C compact_all, C add with automatic compaction, Go Add with automatic compaction} (steps 1 and 2 are additions), then both merged views are compared and checked against the transactions; BlockSize 256, sha1
+// assumes: sequential, as above
+// covers: done
+func Harness_C15_stack_mixed() {
+	cfg := stackCfg(0)
+	hs := 20
+	dir := VerifTempDir()
+	payload := VerifU8()
+	adds := 0
+	for step := 0; step < 4; step++ {
+		var op int
+		if step < 2 {
+			op = []int{0, 1}[VerifChoose(2)]
+		} else {
+			op = VerifChoose(6)
+		}
+		switch op {
+		case 0, 5: // Go adds
+			VerifAs(1)
+			st, err := NewStack(dir, cfg)
+			VerifAssert(err == nil, "go-open")
+			if err != nil {
+				return
+			}
+			st.disableAutoCompact = op == 0
+			VerifAssert(addTxnVal(st, byte(adds), payload, true) == nil, "go-add")
+			st.Close()
+			VerifAs(0)
+			adds++
+		case 1, 4: // C adds
+			o := 0
+			if op == 4 {
+				o = 1
+			}
+			VerifAssert(c15COp(dir, cfg, o, c15Txn(byte(adds), payload, false, hs)) == 0, "c-add")
+			adds++
+		case 2:
+			VerifAs(1)
+			st, err := NewStack(dir, cfg)
+			VerifAssert(err == nil, "go-open")
+			if err != nil {
+				return
+			}
+			VerifAssert(st.CompactAll(nil) == nil, "go-compactall")
+			st.Close()
+			VerifAs(0)
+		case 3:
+			VerifAssert(c15COp(dir, cfg, 2, nil) == 0, "c-compactall")
+		}
+	}
+	st := c15StackViews(dir, cfg, "")
+	if st == nil {
+		return
+	}
+	VerifQuiet(func() {
+		got := snapshot(st, "final")
+		VerifAssert(len(got.refs) == adds+1, "ref-count")
+		for i := 0; i < adds; i++ {
+			v, ok := got.refs["p"+string([]byte{'0' + byte(i)})]
+			VerifAssert(ok && v == byte(i), "transaction-lost")
+			VerifAssert(got.payload["p"+string([]byte{'0' + byte(i)})] == payload, "payload-altered")
+		}
+		VerifAssert(got.refs["s"] == byte(adds-1), "shared-ref")
+		VerifAssert(got.logs == adds, "log-count")
+	})
 	VerifCover("done")
 }
